@@ -145,8 +145,8 @@ repetition on the pressed queue, then the rapid-event pause -/
 theorem waitingIntoTap_chord (S : Layout) (w1 : Waiting) (g : ChordsGroup) (hS : S.waiting = some w1)
     (hc : w1.config = .chord g) (pq : List Coord) (s' : Layout) (cu : CustomEv)
     (h : waitingIntoTap S (some pq) none = .ok (s', cu)) :
-    ∃ s1 s2, doAction FUEL S.clearWaiting w1.tap w1.coord (w1.delay + w1.ticks) false w1.layerStack = .ok (s1, cu) ∧
-      chordRepeat w1.tap pq (w1.delay + w1.ticks) w1.layerStack s1 = .ok s2 ∧ s' = tapPost s2 := by
+    ∃ s1 s2, doAction FUEL S.clearWaiting w1.tap w1.coord (min (w1.delay + w1.ticks) U16_MAX) false w1.layerStack = .ok (s1, cu) ∧
+      chordRepeat w1.tap pq (min (w1.delay + w1.ticks) U16_MAX) w1.layerStack s1 = .ok s2 ∧ s' = tapPost s2 := by
   simp only [waitingIntoTap, takeWaiting, hS, Option.map_some, waitingDelay, hc] at h
   split at h
   · cases h
